@@ -288,15 +288,17 @@ def apply_model(sym, n, f, vals, mut_idx, st):
             for s2, (k2, v2) in sym.ev(strip_mut(n["args"][0]), st):
                 if k2 == VAL:
                     cur = v2
-        if cur is not None and cur[0] == "call" and cur[1] == "core::str::splitn" and len(cur[2]) == 3 and cur[2][1] == lit_int(2):
+        if cur is not None and cur[0] == "call" and cur[1] in ("core::str::splitn", "core::str::rsplitn") and len(cur[2]) == 3 and cur[2][1] == lit_int(2):
+            # splitn(2, p): (before, after) of split_once(p); rsplitn(2, p): (after, before) of rsplit_once(p)
             src, pat = cur[2][0], cur[2][2]
-            so = ("call", "core::str::split_once", (src, pat))
+            rev = cur[1].endswith("rsplitn")
+            so = ("call", "core::str::rsplit_once" if rev else "core::str::split_once", (src, pat))
             out = []
             for s, is_some in fork_is(sym, st, so, "Some"):
                 if is_some:
                     pr = mk_payload(so, "Some", "0")
-                    s = sym.write_place(s, pl, ("splitn_tail", some(mk_field(pr, "1"))))
-                    out.append((s, (VAL, some(mk_field(pr, "0")))))
+                    s = sym.write_place(s, pl, ("splitn_tail", some(mk_field(pr, "0" if rev else "1"))))
+                    out.append((s, (VAL, some(mk_field(pr, "1" if rev else "0")))))
                 else:
                     s = sym.write_place(s, pl, ("splitn_tail", NONE))
                     out.append((s, (VAL, some(src))))
